@@ -257,7 +257,7 @@ def finish(pid, level, tier, acc, t0, rule, assumptions, extra=None, exhaustive=
 # per task matters: schedule and history explorers).  No multiprocessing.Pool (maxtasksperchild=1 proved unreliable).
 # ---------------------------------------------------------------------------------------------------------------
 
-def fresh_map(func, tasks, nproc=None, timeout=600):
+def fresh_map(func, tasks, nproc=None, timeout=3600):
     """yields (index, result) in completion order; result is whatever func returned (must pickle).
     A task whose process dies or times out yields (index, RuntimeError(...))."""
     import pickle
